@@ -68,6 +68,7 @@ def build_vertices(spec):
             groups[vid] = gi
     mode = spec.get("share_mode", "object")
     out = []
+    np_ids = bool(spec.get("np_ids"))
     for v in spec["vertices"]:
         gi = groups.get(v["id"])
         if gi is None:
@@ -81,7 +82,8 @@ def build_vertices(spec):
                 shared[gi] = mkpose(v["kind"], v["pose"])
             pose = shared[gi]
         fx = v.get("fixed", False)
-        out.append(Vertex(v["id"], pose, fixed=fx if isinstance(fx, int) and not isinstance(fx, bool) else bool(fx)))
+        vid = np.int64(v["id"]) if np_ids and abs(v["id"]) < 2 ** 62 else v["id"]
+        out.append(Vertex(vid, pose, fixed=fx if isinstance(fx, int) and not isinstance(fx, bool) else bool(fx)))
     return out
 
 
@@ -103,6 +105,10 @@ def build_edge(e):
 def build(spec):
     vs = build_vertices(spec)
     es = [build_edge(e) for e in spec["edges"]]
+    if spec.get("np_ids"):
+        # ids as numpy integers (what client code gets from np.arange / array indexing) instead of Python ints
+        for e in es:
+            e.vertex_ids = [np.int64(i) if abs(i) < 2 ** 62 else i for i in e.vertex_ids]
     g = Graph(es, vs)
     if spec.get("params"):
         params = {}
